@@ -204,4 +204,46 @@ theorem C05N_unqueued_nested_immediate (sc : Script) (cfg : NCfg) (qmax f : Nat)
     simp at h; subst h
     exact ⟨mid, out, .raise e, by simp [NSt.emit, hl, hs2log], ho⟩
 
+/-- **C05 (no queue) on the hierarchical engine: "… and completely".**  On a machine WITHOUT a queue (`queued = False`,
+so the queue is empty at all times) a trigger call — issued by the caller or by a callback at any depth, for any
+interpreter level `f` — is `_trigger_event` run on the spot: the trace of the call, between its `api` item and its own
+outcome item, contains the start of the first finalize callback (the visibility marker `fin0`) of THAT event (tag
+`s.nextTag`); finalize callbacks run last (`finally:`), so the whole event has been processed when the call returns.
+Together with `C05N_unqueued_nested_immediate`: call of `c`, `api`, …, `call finalize fin0` of the nested event, …,
+outcome of the nested call, `done` of `c`. -/
+theorem C05N_unqueued_nested_complete (fin0 : Nat) (sc : Script) (cfg : NCfg) (qmax f : Nat)
+    (hq : cfg.queued = false) (rest : List Nat) (hfin : cfg.finalize = fin0 :: rest)
+    (ev : Nat) (s : NSt) (hidle : s.queue = []) :
+    ∀ s', (napiTrigger (nrunCmd sc cfg qmax f) sc cfg qmax ev s).state? = some s' →
+      ∃ (pre post : List Item) (mask : Nat) (out : Item),
+        s'.log = s.log ++ (.api 0 s.nextTag 0 ev :: pre ++ .call .finalize fin0 0 s.nextTag mask :: post ++ [out]) ∧
+        ((∃ b, out = .ret s.nextTag b) ∨ ∃ e, out = .raised s.nextTag e) := by
+  intro s' h
+  let s1 : NSt := (({ s with nextTag := s.nextTag + 1 } : NSt).emit (.api 0 s.nextTag 0 ev)).emitG (.api s.nextTag ev)
+  have hs1log : s1.log = s.log ++ [.api 0 s.nextTag 0 ev] := rfl
+  have hmp : nmachineProcess (nrunCmd sc cfg qmax f) sc cfg qmax ev s.nextTag s1 =
+      ntriggerEvent (nrunCmd sc cfg qmax f) sc cfg ⟨0, s.nextTag⟩ ev s1 := by
+    have hs1q : s1.queue = [] := hidle
+    simp only [nmachineProcess, hq, Bool.not_false, if_true, hs1q]
+  have hc := ntriggerEvent_complete (nrunCmd sc cfg qmax f) (nrunCmd_grows sc cfg qmax f) sc cfg fin0 rest hfin
+    ⟨0, s.nextTag⟩ ev s1
+  unfold napiTrigger at h
+  change (match nmachineProcess (nrunCmd sc cfg qmax f) sc cfg qmax ev s.nextTag s1 with
+      | .ok b s' => (.ok b { ((s'.emit (.ret s.nextTag b)).emitG (.ret s.nextTag b)) with
+          result := s.result, exited := s.exited } : NR Bool)
+      | .err e s' => .err e { ((s'.emit (.raised s.nextTag e)).emitG (.raised s.nextTag e)) with
+          result := s.result, exited := s.exited }
+      | .oof => .oof).state? = some s' at h
+  rw [hmp] at h
+  cases hr : ntriggerEvent (nrunCmd sc cfg qmax f) sc cfg ⟨0, s.nextTag⟩ ev s1 with
+  | oof => simp [hr, Res.state?] at h
+  | ok b s2 =>
+    obtain ⟨pre, mask, post, hl⟩ := hc s2 (by simp [hr, Res.state?])
+    simp only [hr, Res.state?, Option.some.injEq] at h; subst h
+    exact ⟨pre, post, mask, .ret s.nextTag b, by simp [NSt.emit, NSt.emitG, hl, hs1log], Or.inl ⟨b, rfl⟩⟩
+  | err e s2 =>
+    obtain ⟨pre, mask, post, hl⟩ := hc s2 (by simp [hr, Res.state?])
+    simp only [hr, Res.state?, Option.some.injEq] at h; subst h
+    exact ⟨pre, post, mask, .raised s.nextTag e, by simp [NSt.emit, NSt.emitG, hl, hs1log], Or.inr ⟨e, rfl⟩⟩
+
 end TM
